@@ -71,6 +71,8 @@ func alphabet() []piece {
 		{Name: "h()", Prog: []*N{Expr(call("h"))}},
 		{Name: "w:=mkw();w()", Prog: []*N{FuncDecl("mkw", nil, Return(Func("", nil, Set1("x", Bin("+", Id("x"), Int(10))), Return(Id("x"))))), Var("w", call("mkw")), Expr(call("w"))}},
 		{Name: "w()", Prog: []*N{Expr(call("w"))}},
+		// a piece that fails by exhausting the operand stack many frames deep: the session goes on
+		{Name: "overflow", Prog: []*N{FuncDecl("deep", P("n"), Return(Bin("+", Int(1), call("deep", Bin("+", Id("n"), Int(1)))))), Expr(call("deep", Int(0)))}},
 	}
 }
 
